@@ -261,6 +261,7 @@ type WriteFault struct {
 	AtWrite int    // writeerr: index of the failing Write
 	Partial int    // writeerr: bytes of that Write accepted before failing (taken modulo len)
 	OneShot bool   // writeerr: only that one Write fails (a transient error); later Writes succeed
+	Sync    bool   // the writer also offers Sync() error, as a file-backed storage writer does (it succeeds)
 }
 
 // Writer wraps the store's writer.
@@ -273,6 +274,7 @@ type Writer struct {
 	Failed   bool
 	Sizes    []int
 	AfterErr int // Write calls made after a failed Write (the encoder ignored the error)
+	Synced   int // Sync calls
 }
 
 func (w *Writer) Write(p []byte) (int, error) {
@@ -378,7 +380,11 @@ func (sm *Seam) Wrap(lsys *linking.LinkSystem) {
 			}
 			wr := &Writer{S: sm.S, Inner: w, F: f}
 			sm.Writers = append(sm.Writers, wr)
-			return wr, func(l datamodel.Link) error {
+			var out io.Writer = wr
+			if f.Sync {
+				out = syncWriter{wr}
+			}
+			return out, func(l datamodel.Link) error {
 				sm.S.Yield("seam.commit")
 				sm.CommitTries++
 				if f.Kind == "commiterr" {
@@ -391,4 +397,13 @@ func (sm *Seam) Wrap(lsys *linking.LinkSystem) {
 			}, nil
 		}
 	}
+}
+
+// syncWriter is the writer plus a Sync method (what *os.File offers).
+type syncWriter struct{ *Writer }
+
+func (s syncWriter) Sync() error {
+	s.Synced++
+	s.S.Yield("stream.sync")
+	return nil
 }
